@@ -70,6 +70,7 @@ def build_jobs(tier):
         texts += F.f_mem_shared_values()
         texts += F.f_exh(3)
     texts += F.f_rule_siblings(ops, consts=(0, 1))[:: (4 if tier == "quick" else 1)]
+    texts += F.f_rule_triples(both)[:: (4 if tier == "quick" else 1)]
     texts += F.deep_stack_blocks()
     # MSIZE observes memory expansion: removing a dead load or hash before it is visible
     texts += ["PUSH ffff MLOAD POP MSIZE", "MSIZE PUSH ffff MLOAD POP MSIZE", "DUP1 MLOAD POP MSIZE", "PUSH 20 DUP2 KECCAK256 POP MSIZE",
